@@ -22,22 +22,23 @@ const (
 	modRoot = "ariga.io/atlas"
 	modCmd  = "ariga.io/atlas/cmd/atlas"
 
-	pMigrate  = modRoot + "/sql/migrate"
-	pSchema   = modRoot + "/sql/schema"
-	pSqlx     = modRoot + "/sql/internal/sqlx"
-	pSpecutil = modRoot + "/sql/internal/specutil"
-	pSqlspec  = modRoot + "/sql/sqlspec"
-	pSqlite   = modRoot + "/sql/sqlite"
-	pMysql    = modRoot + "/sql/mysql"
-	pPostgres = modRoot + "/sql/postgres"
-	pSqltool  = modRoot + "/sql/sqltool"
-	pSqlcheck = modRoot + "/sql/sqlcheck"
-	pHCL      = modRoot + "/schemahcl"
-	pCmdapi   = modCmd + "/internal/cmdapi"
-	pCmdext   = modCmd + "/internal/cmdext"
-	pCmdlog   = modCmd + "/internal/cmdlog"
-	pCmdmig   = modCmd + "/internal/migrate"
-	pLint     = modCmd + "/internal/migratelint"
+	pMigrate     = modRoot + "/sql/migrate"
+	pSchema      = modRoot + "/sql/schema"
+	pSqlx        = modRoot + "/sql/internal/sqlx"
+	pSpecutil    = modRoot + "/sql/internal/specutil"
+	pSqlspec     = modRoot + "/sql/sqlspec"
+	pSqlite      = modRoot + "/sql/sqlite"
+	pMysql       = modRoot + "/sql/mysql"
+	pPostgres    = modRoot + "/sql/postgres"
+	pSqltool     = modRoot + "/sql/sqltool"
+	pSqlitecheck = modRoot + "/sql/sqlite/sqlitecheck"
+	pSqlcheck    = modRoot + "/sql/sqlcheck"
+	pHCL         = modRoot + "/schemahcl"
+	pCmdapi      = modCmd + "/internal/cmdapi"
+	pCmdext      = modCmd + "/internal/cmdext"
+	pCmdlog      = modCmd + "/internal/cmdlog"
+	pCmdmig      = modCmd + "/internal/migrate"
+	pLint        = modCmd + "/internal/migratelint"
 )
 
 // Obligation is one instance of a rule: a construct of /repo on which the
